@@ -196,8 +196,8 @@ func TestC25(t *testing.T) {
 		"'the full parser accepts' = parser.Parse and parser.ResultFromAST(validate=true) report no error",
 		"the full parser's answer is the FileDescriptorProto: package, dependency (order), public_dependency, weak_dependency; it is cross-checked against the AST's PackageNode/ImportNodes",
 	})
-	base := textCases(r, "C25", r.N(600, 12000), r.N(800, 16000), r.N(600, 12000))
-	nFocus := r.N(2500, 60000)
+	base := textCases(r, "C25", r.N(600, 30000), r.N(800, 40000), r.N(600, 30000))
+	nFocus := r.N(5000, 150000)
 	for i := 0; i < nFocus; i++ {
 		id := fmt.Sprintf("focus/%d", i)
 		base = append(base, textCase{id, func() []byte {
